@@ -6,6 +6,7 @@ R16.3  None stripping / dict conversion on every return path of the serialiser
 R16.4  the post-processor recurses with itself on containers (lists, dict values) so that every nested value is processed
 R16.11 a field the Meta map does not list keeps its own name as wire key in both directions (decode and encode agree)            [= R3.13]
 R16.10 the None-stripping pass descends into every dict and list (no return of the container as it came in)
+R16.12 a process-wide "already registered" record identifies classes by the object, never by module / qualname only
 R16.9  no value computed from a class is memoised on that class and read back through an inheriting lookup (getattr/hasattr/attribute)
 R16.8  the raw-dict fallback of union decoding applies to dict[str, Any] only (guard evaluated over {str, other} x {Any, other})
 R3.3/R3.4/R3.5 hook pairs inverse, rename plumbing, recursive registration (shared with C03)
@@ -29,6 +30,7 @@ def run(repo: Repo, rep: Report, tier: str) -> None:
     cv.rule_recursive_registration(repo, rep, "R16.7")
     rule_class_memo(repo, rep, "R16.9")
     rule_strip_descends(repo, rep, "R16.10")
+    rule_memo_by_identity(repo, rep, "R16.12")
     conv = repo.module("core.cattrs_converter")
     # ---------------------------------------------------------------- R16.1
     sfd = conv.functions.get("structure_from_dict")
@@ -509,3 +511,102 @@ def rule_strip_descends(repo: Repo, rep: Report, rule: str = "R16.10") -> None:
         else:
             rep.ok(rule, sub, "every return is built from recursive calls on the members", fn.loc(rets[0]))
     rep.count(f"{rule}:branches", n_br)
+
+
+# ------------------------------------------------------------------------------------------------ R16.12 "already done for this class" is remembered per class object
+_R1612_EXAMPLE = '''
+_hooked = set()
+
+def _needs_hook(kind, cls):
+    key = (kind, cls.__module__, cls.__qualname__)
+    if key in _hooked:
+        return False
+    _hooked.add(key)
+    return True
+'''
+_NAME_ATTRS = {"__name__", "__qualname__", "__module__"}
+
+
+def _name_keyed_memos(tree: ast.AST):
+    """[(function, container, key expression)] for module-level containers that a function both tests (`K in G`) and fills (`G.add(K)`,
+    `G[K] = ...`) with a key K that identifies a parameter only by its *names* (`p.__name__`, `p.__qualname__`, `p.__module__`) and not by
+    the object itself."""
+    mod_containers = set()
+    for st in getattr(tree, "body", []):
+        if isinstance(st, (ast.Assign, ast.AnnAssign)):
+            t = st.targets[0] if isinstance(st, ast.Assign) else st.target
+            v = st.value
+            if isinstance(t, ast.Name) and v is not None and (isinstance(v, (ast.Dict, ast.Set, ast.List)) or (
+                    isinstance(v, ast.Call) and (dotted(v.func) or "").split(".")[-1] in ("set", "dict", "list", "defaultdict", "WeakSet", "WeakKeyDictionary", "OrderedDict"))):
+                mod_containers.add(t.id)
+    out, n = [], 0
+    for fn in ast.walk(tree):
+        if not isinstance(fn, (ast.FunctionDef, ast.AsyncFunctionDef)):
+            continue
+        L = Locals(fn)
+        params = set(L.params)
+        tests = [(c.left, c.comparators[0].id) for c in ast.walk(fn) if isinstance(c, ast.Compare) and len(c.ops) == 1 and isinstance(c.ops[0], (ast.In, ast.NotIn))
+                 and isinstance(c.comparators[0], ast.Name) and c.comparators[0].id in mod_containers]
+        for key, g in tests:
+            fills = [c for c in ast.walk(fn) if (isinstance(c, ast.Call) and isinstance(c.func, ast.Attribute) and c.func.attr in ("add", "append", "setdefault") and isinstance(c.func.value, ast.Name)
+                                                  and c.func.value.id == g) or (isinstance(c, ast.Assign) and any(isinstance(t, ast.Subscript) and isinstance(t.value, ast.Name) and t.value.id == g
+                                                                                                                       for t in c.targets))]
+            if not fills:
+                continue
+            n += 1
+            ki = L.inline(key, stop=tuple(params))
+            by_name = [x for x in ast.walk(ki) if isinstance(x, ast.Attribute) and x.attr in _NAME_ATTRS and isinstance(x.value, ast.Name) and x.value.id in params]
+            whole = set()
+            for x in ast.walk(ki):
+                if isinstance(x, ast.Name) and x.id in params:
+                    par = getattr(x, "_parent", None)
+                    whole.add(x.id)
+            # parameters that occur in the key *only* below a name attribute
+            named = {x.value.id for x in by_name}
+            bare = set()
+            for x in ast.walk(ki):
+                for ch in ast.iter_child_nodes(x):
+                    if isinstance(ch, ast.Name) and ch.id in named and not (isinstance(x, ast.Attribute) and x.attr in _NAME_ATTRS):
+                        bare.add(ch.id)
+            if isinstance(ki, ast.Name) and ki.id in named:
+                bare.add(ki.id)
+            only_named = named - bare
+            if only_named:
+                out.append((fn, g, key, sorted(only_named)))
+    return out, n
+
+
+def rule_memo_by_identity(repo: Repo, rep, rule: str = "R16.12") -> None:
+    """The converter dispatches on class *objects* (`t is captured_cls`).  A process-wide record of "this class already has its hooks" must
+    therefore remember class objects too.  Keyed by `(module, qualname)` it answers 'done' for a second, distinct class that merely has the
+    same name (a model built by a factory, a reloaded module): that class never gets a hook, is handled by cattrs' default and loses its
+    wire-key maps in both directions."""
+    hz, n = _name_keyed_memos(ast.parse(_R1612_EXAMPLE))
+    rep.require(len(hz) == 1 and n == 1, f"{rule}: the built-in positive example is no longer recognised - the rule is broken")
+    n_mod = n_memo = 0
+    found = False
+    for modname, filename, dst, line in runtime_files_of(repo):
+        dn = f"{modname}.{filename[:-3]}"
+        if dn not in repo.modules:
+            continue
+        mod = repo.modules[dn]
+        n_mod += 1
+        hz, n = _name_keyed_memos(mod.tree)
+        n_memo += n
+        for fn, g, key, ps in hz:
+            found = True
+            rep.violation(rule, f"{mod.relpath}:{fn.name} records `{norm(key)[:50]}` in `{g}`", f"{mod.name}:{fn.name}|memo-keyed-by-name|{g}",
+                          f"`{g}` remembers {ps} by name only (`{norm(key)[:70]}`), while hooks are dispatched on the class object: a second class with the same module and "
+                          "qualname is taken for the first, gets no hook of its own and is converted without its Meta key maps (wrong wire keys, decode failures)",
+                          f"{mod.relpath}:{key.lineno}")
+    rep.count(f"{rule}:runtime_modules", n_mod)
+    rep.count(f"{rule}:module_level_memos", n_memo)
+    rep.require(n_mod >= 6, f"{rule}: only {n_mod} runtime modules analysed (floor 6)")
+    if not found:
+        rep.ok(rule, "runtime modules: process-wide 'already done' records", f"{n_memo} record(s) in {n_mod} modules: none identifies a class by its names only", "src/pyopenapi_gen/core:1")
+
+
+def runtime_files_of(repo: Repo):
+    from rules.c12 import runtime_files
+
+    return runtime_files(repo)
